@@ -60,6 +60,10 @@ class Resolution:
         return self.targets[i]
 
 
+_CONTAINER_METHODS = {"append", "add", "extend", "update", "insert", "remove", "discard", "pop", "clear", "setdefault", "sort", "get",
+                      "items", "keys", "values", "copy", "index", "count"}
+
+
 class Resolver:
     def __init__(self, program: Program):
         self._rebound = {}
@@ -68,6 +72,26 @@ class Resolver:
         self._ret_cache: Dict[str, Set[str]] = {}
         self._busy: Set[tuple] = set()
         self.stats = {"typed": 0, "by_name": 0, "stdlib": 0, "builtin": 0, "slot": 0, "unknown": 0}
+
+    def _looks_local_container(self, recv: ast.AST, fn, events) -> bool:
+        """The receiver is itself the result of a builtin-container operation, or a local bound to a display / builtin
+        constructor in this function (and not a parameter or attribute, which could be a package object)."""
+        if isinstance(recv, ast.Call) and isinstance(recv.func, ast.Attribute) and recv.func.attr in _CONTAINER_METHODS:
+            return True
+        if isinstance(recv, ast.Subscript):
+            return self._looks_local_container(recv.value, fn, events)
+        if isinstance(recv, ast.Name) and fn is not None and not isinstance(fn.node, ast.Lambda):
+            if recv.id.startswith("$l"):
+                return True
+            for n in _own_nodes(fn.node):
+                tgt = n.targets[0] if isinstance(n, ast.Assign) and len(n.targets) == 1 else (n.target if isinstance(n, ast.AnnAssign) else None)
+                val = getattr(n, "value", None)
+                if isinstance(tgt, ast.Name) and tgt.id == recv.id and val is not None:
+                    if isinstance(val, (ast.List, ast.Dict, ast.Set, ast.ListComp, ast.DictComp, ast.SetComp)):
+                        return True
+                    if isinstance(val, ast.Call) and isinstance(val.func, ast.Name) and val.func.id in ("list", "dict", "set", "deque", "defaultdict", "sorted"):
+                        return True
+        return False
 
     # ------------------------------------------------------------------ annotations
     def annot_types(self, ann, mod: ModuleInfo) -> Set[str]:
@@ -682,8 +706,11 @@ class Resolver:
                         return Resolution("typed", [r[1]])
                     if r and r[0] == "class":
                         return Resolution("typed", self._ctor_targets(r[1]), tags=[f"ctor:{r[1].name}"])
-            # unknown receiver: class-hierarchy-by-name over-approximation
+            # unknown receiver: class-hierarchy-by-name over-approximation - except for the method names of the builtin
+            # containers, where an untyped receiver is overwhelmingly a list/dict/set built locally (`d.setdefault(k, []).append(x)`)
             cands = [mm for c in self.p.classes.values() for mm in c.methods.get(m, []) if not mm.is_setter]
+            if cands and m in _CONTAINER_METHODS and self._looks_local_container(f.value, fn, events):
+                return Resolution("stdlib", tags=[f"container.{m}"])
             if cands:
                 return Resolution("by_name", cands)
             return Resolution("unknown", tags=[f"?.{m}"])
